@@ -16,7 +16,7 @@
 From Coq Require Import List ZArith String Bool Arith.
 From Thunder Require Import Lib.Json DiffMerge.Model Server.Model Server.Spec Server.Proofs Server.ProofsLife
      Server.ProofsConv Server.Witness Server.Queries Server.ProofsC02
-     Server.Product Server.ProductDrive Server.ProductWitness Server.ProofsProduct.
+     Server.Product Server.ProductDrive Server.ProductWitness Server.ProofsProduct Server.ProofsAnyDiff.
 Import ListNotations.
 
 (** Convergence.  After any history in which no socket write has failed ([st_wfail s = false]: the client is
@@ -100,6 +100,28 @@ Example convergence_example :
   exists s, run (repaired 3) init h_conv = Some s /\ List.length (updates_of 0 s) = 2
             /\ norm (client_state 0 s) = JObj [("a", JNum 3); ("items", JArr [JObj [("n", JNum 7)]; JObj [("n", JNum 5)]])].
 Proof. exact ProofsC02.conv_example_l. Qed.
+
+(** * Whatever delta the diff chooses
+
+    diff.go is free in how it matches the items of a keyed list that share a key, hence in the index list and
+    the sub-deltas of a "$" delta; the connection model fixes one choice ([Diff]), and the correspondence check
+    compares update messages by the client state they lead to, not by their text.  The convergence argument
+    does not depend on the choice either: a client that folds from nothing ANY sequence of update messages,
+    each of which takes the stripped previous value to the stripped new one, holds the stripped last value. *)
+Theorem any_diff_converges : forall l prev st,
+  good_run prev l -> jeq st (strip prev) -> jeq (fold_client st l) (strip (last_value prev l)).
+Proof. exact ProofsAnyDiff.any_diff_converges_l. Qed.
+Print Assumptions any_diff_converges.
+
+(** ... and the deltas of the model's own diff are of that kind (C03's round trip, instantiated). *)
+Theorem model_diff_is_good : forall prev v, wf prev = true -> wf v = true -> good_delta prev v (Diff prev v).
+Proof. exact (ProofsAnyDiff.model_diff_good ProofsC02.roundtrip_js_fact). Qed.
+Print Assumptions model_diff_is_good.
+
+Example any_diff_example :
+  good_run JNull run_a /\ good_run JNull run_b /\ run_a <> run_b
+  /\ norm (fold_client JNull run_a) = norm (strip w2) /\ norm (fold_client JNull run_b) = norm (strip w2).
+Proof. exact ProofsAnyDiff.any_diff_example. Qed.
 
 (** * End to end: the connection composed with the reactive package
 
